@@ -13,7 +13,7 @@ from typing import List, Tuple
 from pyopenapi_gen.context.render_context import RenderContext
 
 from .code_writer import CodeWriter
-from .documentation_writer import DocumentationBlock, DocumentationWriter
+from .documentation_writer import DocumentationBlock, DocumentationWriter, escape_docstring_text
 
 
 class PythonConstructRenderer:
@@ -379,7 +379,7 @@ class PythonConstructRenderer:
         has_content = False
         if docstring:
             # Simple triple-quoted docstring is sufficient for exceptions
-            writer.write_line(f'"""{docstring}"""')
+            writer.write_line(f'"""{escape_docstring_text(docstring)}"""')
             has_content = True
         if body_lines:
             for line in body_lines:
